@@ -8,6 +8,7 @@ import (
 	"os"
 	"os/exec"
 	"path/filepath"
+	"sort"
 	"strings"
 
 	"github.com/modernizing/coca/pkg/application/api"
@@ -80,6 +81,7 @@ type RunObs struct {
 	// Apis is then read from coca_reporter/apis.json and Csv from coca_reporter/api.csv (CsvOk: it was there and well-formed)
 	Cli   bool     `json:"cli"`
 	CsvOk bool     `json:"csvOk"`
+	Prior bool     `json:"prior"` // Cli: the working directory had served another project before (stale coca_reporter/)
 	Csv   []CsvRow `json:"csv"`
 	Note  string   `json:"note,omitempty"`
 }
@@ -187,11 +189,14 @@ func runCli(c Case, ri int, scratch string) RunObs {
 	o := RunObs{Apis: []ApiObs{}, Csv: []CsvRow{}, Cli: true}
 	work := filepath.Join(scratch, fmt.Sprintf("cli%d", ri))
 	dir := filepath.Join(work, "proj")
-	for i, k := range c.Runs[ri] {
-		f := c.Files[k-1]
-		d := filepath.Join(dir, fmt.Sprintf("f%02d", i), filepath.FromSlash(strings.ReplaceAll(f.Pkg, ".", "/")))
-		os.MkdirAll(d, 0o755)
-		os.WriteFile(filepath.Join(d, f.Cls+".java"), []byte(render(f, c.Layout)), 0o644)
+	write := func(run []int) {
+		os.RemoveAll(dir)
+		for i, k := range run {
+			f := c.Files[k-1]
+			d := filepath.Join(dir, fmt.Sprintf("f%02d", i), filepath.FromSlash(strings.ReplaceAll(f.Pkg, ".", "/")))
+			os.MkdirAll(d, 0o755)
+			os.WriteFile(filepath.Join(d, f.Cls+".java"), []byte(render(f, c.Layout)), 0o644)
+		}
 	}
 	coca := os.Getenv("VERIF_COCA")
 	run := func(args ...string) (string, error) {
@@ -201,11 +206,32 @@ func runCli(c Case, ri int, scratch string) RunObs {
 		b, err := cmd.CombinedOutput()
 		return string(b), err
 	}
+	// A history at the command line: in every other case the same working directory has first served another project
+	// (the files of a later run with a different file set), so coca_reporter/ holds that project's deps.json, apis.json
+	// and api.csv when the project under observation is analysed and scanned with -f. The Reference has no variable in
+	// which an earlier request could leave anything: the entries must be those of the current project alone.
+	if c.Layout%2 == 0 {
+		key := func(r []int) string {
+			q := append([]int{}, r...)
+			sort.Ints(q)
+			return fmt.Sprint(q)
+		}
+		for rj := range c.Runs {
+			if key(c.Runs[rj]) != key(c.Runs[ri]) {
+				write(c.Runs[rj])
+				run("analysis", "-p", "proj")
+				run("api", "-f", "-p", "proj")
+				o.Prior = true
+				break
+			}
+		}
+	}
+	write(c.Runs[ri])
 	if out, err := run("analysis", "-p", "proj"); err != nil {
-		return RunObs{Panic: true, Cli: true, Apis: []ApiObs{}, Csv: []CsvRow{}, Note: "coca analysis: " + err.Error() + " " + tailStr(out)}
+		return RunObs{Panic: true, Cli: true, Prior: o.Prior, Apis: []ApiObs{}, Csv: []CsvRow{}, Note: "coca analysis: " + err.Error() + " " + tailStr(out)}
 	}
 	if out, err := run("api", "-f", "-p", "proj"); err != nil {
-		return RunObs{Panic: true, Cli: true, Apis: []ApiObs{}, Csv: []CsvRow{}, Note: "coca api: " + err.Error() + " " + tailStr(out)}
+		return RunObs{Panic: true, Cli: true, Prior: o.Prior, Apis: []ApiObs{}, Csv: []CsvRow{}, Note: "coca api: " + err.Error() + " " + tailStr(out)}
 	}
 	var apis []struct {
 		Uri, HttpMethod, MethodName, RequestBodyClass, PackageName, ClassName string
